@@ -155,3 +155,183 @@ def rule_F2_arrays(ctx):
                              "capacity can be written" % (arr, why))
     ctx.floor("F2", 8, len(funcs), "(functions with a capacity parameter and an output array)")
     ctx.floor("F2-sites", 8, n, "(store/forward sites into caller arrays)")
+
+
+# ---------------------------------------------------------------------------------------
+# F2s: copies into fixed-size character/byte array fields of records must be bounded by the array size
+
+COPYFN = {"strcpy": None, "strcat": None, "strncpy": 2, "HIstrncpy": 2, "memcpy": 2, "memmove": 2, "strncat": 2}
+
+F2S_EXCEPT = {
+    "F2s:H4_NC_new_cdf:cdf->path": "reached only after Hopen/fopen succeeded on `name`, which the OS refuses for names longer than PATH_MAX "
+                                   "(= FILENAME_MAX, the buffer size - 1); replay with a 6004-character path is refused (triage/c20_sdstart_longpath.c)",
+    "F2s:DFSDsetfillvalue:Writesdg.fill_value": "length is DFKNTsize() of a supported number type (at most 8), the buffer holds 16 bytes",
+}
+
+
+class F2s(PathAnalysis):
+    """facts ('ub', path, n): path <= n ; ('len', v, text): v == strlen(text)"""
+
+    def __init__(self, prog):
+        super().__init__(prog)
+        self.sites = {}
+
+    def init_user(self, func):
+        return frozenset()
+
+    def on_assume(self, func, bid, cond, pol, env, user):
+        c = strip(cond)
+        if kind(c) == "bin" and c[1] in ("<", "<=", ">", ">="):
+            op = c[1] if pol else NEG[c[1]]
+            l, r = c[2], c[3]
+            if is_int(l) and not is_int(r):
+                l, r, op = r, l, SWAP[op]
+            if is_int(r) and op in ("<", "<="):
+                n = int_val(r) - (1 if op == "<" else 0)
+                facts = set(user)
+                ll = strip(l)
+                while kind(ll) == "cast":
+                    ll = strip(ll[2])
+                if kind(ll) == "asg":  # (slen = strlen(x)) > MAX
+                    ll = strip(ll[2])
+                p = path(ll)
+                if p:
+                    facts.add(("ub", p, n))
+                if kind(ll) == "call" and ll[1] in ("strlen", "strnlen") and ll[3]:
+                    facts.add(("ub", "strlen(%s)" % render(ll[3][0]), n))
+                return frozenset(facts)
+        return user
+
+    def on_stmt(self, func, bid, idx, stmt, env, user):
+        facts = set(user)
+        for n in walk(stmt["e"]):
+            if n[0] == "asg" and kind(strip(n[2])) == "var":
+                v = strip(n[2])[1]
+                facts = {f for f in facts if not (f[1] == v)}
+                r = strip(n[3])
+                while kind(r) == "cast":
+                    r = strip(r[2])
+                if n[1] == "=" and kind(r) == "call" and r[1] in ("strlen", "strnlen") and r[3]:
+                    facts.add(("len", v, render(r[3][0])))
+                if n[1] == "=" and is_int(n[3]):
+                    facts.add(("ub", v, int_val(n[3])))
+            elif n[0] == "call" and n[1] in COPYFN and n[3]:
+                d = strip(n[3][0])
+                while kind(d) == "cast":
+                    d = strip(d[2])
+                if kind(d) != "mem":
+                    continue
+                ti = self.prog.types.get(d[4])
+                if not ti or ti[0] != "arr":
+                    continue
+                N = ti[1]
+                ok, why = self._bounded(n, N, facts, env)
+                k = (render(d), n[5])
+                cur = self.sites.get(k)
+                if cur is None or (cur[0] and not ok):
+                    self.sites[k] = (ok, why, n[1], N)
+        return frozenset(facts)
+
+    def _ub(self, e, facts, env):
+        """upper bound of an integer expression, or None"""
+        e = strip(e)
+        while kind(e) == "cast":
+            e = strip(e[2])
+        if kind(e) == "int":
+            return e[1]
+        if kind(e) == "bin" and e[1] == "+" and is_int(e[3]):
+            a = self._ub(e[2], facts, env)
+            return None if a is None else a + int_val(e[3])
+        p = path(e)
+        if p:
+            bs = [f[2] for f in facts if f[0] == "ub" and f[1] == p]
+            v = env.get(p)
+            if v is not None and v[0] == "c":
+                bs.append(v[1])
+            if v is not None and v[0] == "rng" and v[2] is not None:
+                bs.append(v[2])
+            # v == strlen(x) and strlen(x) bounded
+            for f in facts:
+                if f[0] == "len" and f[1] == p:
+                    bs += [g[2] for g in facts if g[0] == "ub" and g[1] == "strlen(%s)" % f[2]]
+            return min(bs) if bs else None
+        if kind(e) == "call" and e[1] in ("strlen", "strnlen") and e[3]:
+            a = strip(e[3][0])
+            while kind(a) == "cast":
+                a = strip(a[2])
+            bs = [g[2] for g in facts if g[0] == "ub" and g[1] == "strlen(%s)" % render(e[3][0])]
+            # strlen of a variable whose length was measured into a bounded variable
+            for f in facts:
+                if f[0] == "len" and f[2] == render(e[3][0]):
+                    bs += [g[2] for g in facts if g[0] == "ub" and g[1] == f[1]]
+            if e[1] == "strnlen" and len(e[3]) > 1 and is_int(e[3][1]):
+                bs.append(int_val(e[3][1]))
+            ti = self.prog.types.get((a[4] if kind(a) == "mem" else a[3]) if kind(a) in ("mem", "var") else "")
+            if ti and ti[0] == "arr":
+                bs.append(ti[1] - 1)
+            return min(bs) if bs else None
+        return None
+
+    def _bounded(self, call, N, facts, env):
+        nm = call[1]
+        li = COPYFN[nm]
+        if li is None:
+            src = strip(call[3][1]) if len(call[3]) > 1 else None
+            while kind(src) == "cast":
+                src = strip(src[2])
+            if kind(src) == "str":
+                L = src[2] if len(src) > 2 and src[2] else len(src[1])
+                return (L + 1 <= N), "literal of %d characters into %d bytes" % (L, N)
+            ub = self._ub(["call", "strlen", None, [call[3][1]], "size_t", 0, 0, []], facts, env)
+            if ub is not None and ub + 1 <= N:
+                return True, "source length is at most %d on this path" % ub
+            return False, "%s of `%s` whose length is not bounded on this path (destination holds %d bytes)" % (nm, render(call[3][1])[:40], N)
+        ln = call[3][li] if li < len(call[3]) else None
+        ub = self._ub(ln, facts, env) if ln is not None else None
+        if ub is not None and ub <= N:
+            return True, "length is at most %d of %d bytes" % (ub, N)
+        return False, "%s with length `%s` that is not bounded by the %d-byte destination on this path" % (nm, render(ln)[:40], N)
+
+
+def rule_F2_strings(ctx):
+    prog = ctx.prog
+    n = 0
+    for f in prog.lib_funcs():
+        hit = False
+        for _, _, _, c in f.calls():
+            if c[1] in COPYFN and c[3]:
+                d = strip(c[3][0])
+                while kind(d) == "cast":
+                    d = strip(d[2])
+                if kind(d) == "mem":
+                    ti = prog.types.get(d[4])
+                    if ti and ti[0] == "arr":
+                        hit = True
+        if not hit:
+            continue
+        a = F2s(prog)
+        a.run(f)
+        ordn = {}
+        for (dst, line), (ok, why, fn, N) in sorted(a.sites.items(), key=lambda x: x[0][1]):
+            n += 1
+            ordn[dst] = ordn.get(dst, 0) + 1
+            key = "F2s:%s:%s%s" % (f.name, dst, "#%d" % ordn[dst] if ordn[dst] > 1 else "")
+            base = "F2s:%s:%s" % (f.name, dst)
+            if ok:
+                ctx.holds("F2s", key, f.where(line), why, nontrivial="literal" not in why)
+            elif base in F2S_EXCEPT:
+                ctx.excepted("F2s", key, f.where(line), F2S_EXCEPT[base])
+            elif f.name == "HEpush" and "function_name" in dst:
+                # every caller passes __func__: the bound is the longest name of a calling function
+                callers = prog.callers().get("HEpush", [])
+                bad = [cf.name for cf, c in callers if not (len(c[3]) > 1 and kind(strip(c[3][1])) == "str" and strip(c[3][1])[1] == "__func__")]
+                longest = max([len(cf.name) for cf, c in callers] or [0])
+                if not bad and longest + 1 <= N:
+                    ctx.holds("F2s", key, f.where(line), "all %d callers pass __func__; the longest calling function name has %d characters (< %d)" % (
+                        len(callers), longest, N))
+                else:
+                    ctx.violated("F2s", key, f.where(line), "function-name buffer of %d bytes: %s" % (
+                        N, ("callers %s pass something other than __func__" % bad[:3]) if bad else "a calling function name has %d characters" % longest))
+            else:
+                ctx.violated("F2s", key, f.where(line), "fixed-size buffer `%s`: %s — a longer name or a crafted/legacy file overruns the record" % (dst, why))
+    ctx.floor("F2s", 25, n, "(copies into fixed-size array fields)")
